@@ -363,7 +363,12 @@ class RedisStore(MutableMapping):
         """
         Handles key invalidation messages sent by the Redis server.
         """
-        keys = message["data"]  # This will contain an array of invalidated keys.        
+        keys = message["data"]  # This will contain an array of invalidated keys.
+        if not isinstance(keys, (list, tuple)):
+            # Not a list of invalidated keys, e.g. the "exit" message that the
+            # stop() method of another RedisStore instance publishes on this
+            # shared channel. Ignore it rather than kill the listener thread.
+            return
         for k in keys:
             # Keys are passed as an array of binary strings, with prefixes.
             key = self._remove_prefix(k.decode("utf-8"))
